@@ -1633,6 +1633,23 @@ func (p *parser) hoistSymbols(scope *js_ast.Scope) {
 					continue
 				}
 
+				// A sloppy-mode block-level function declaration is not hoisted if
+				// its name is also the name of a parameter of the enclosing function
+				// (see "Changes to FunctionDeclarationInstantiation" in Annex B). This
+				// is checked up front because the name may also be declared by a "var"
+				// in between, which the hoisted symbol would otherwise be merged into.
+				fnScope := scope.Parent
+				for !fnScope.Kind.StopsHoisting() {
+					fnScope = fnScope.Parent
+				}
+				if fnScope.Kind == js_ast.ScopeFunctionBody && fnScope.Parent.Kind == js_ast.ScopeFunctionArgs {
+					// Note: The name of a function expression is also declared in this
+					// scope but unlike a parameter it doesn't prevent hoisting
+					if arg, ok := fnScope.Parent.Members[symbol.OriginalName]; ok && p.symbols[arg.Ref.InnerIndex].Kind == ast.SymbolHoisted {
+						continue
+					}
+				}
+
 				// In sloppy mode, block level functions behave like "let" except with
 				// an assignment to "var", sort of. This code:
 				//
@@ -1681,16 +1698,6 @@ func (p *parser) hoistSymbols(scope *js_ast.Scope) {
 
 				if existingMember, ok := s.Members[symbol.OriginalName]; ok {
 					existingSymbol := &p.symbols[existingMember.Ref.InnerIndex]
-
-					// A sloppy-mode block-level function declaration is not hoisted if
-					// its name is also the name of a parameter of the enclosing function
-					// (see "Changes to FunctionDeclarationInstantiation" in Annex B)
-					if isSloppyModeBlockLevelFnStmt && s.Kind == js_ast.ScopeFunctionBody && s.Parent.Kind == js_ast.ScopeFunctionArgs {
-						if _, ok := s.Parent.Members[symbol.OriginalName]; ok {
-							delete(p.hoistedRefForSloppyModeBlockFn, originalMemberRef)
-							continue nextMember
-						}
-					}
 
 					// We can hoist the symbol from the child scope into the symbol in
 					// this scope if:
